@@ -637,12 +637,13 @@ func run(s *kernel.Sim, prop, cfg string) {
 		"dns-linked": world.NewServer("dns-linked", agd.ProtoDNS, "198.18.0.1:53", true),
 		"dns-plain":  world.NewServer("dns-plain", agd.ProtoDNS, "198.18.0.2:53", false),
 		"dns-iface":  world.NewServerIface("dns-iface", "198.18.10.0/24", 53, true),
+		"dns-iface2": world.NewServerIface("dns-iface2", "198.18.10.0/24", 53, false),
 		"dot":        world.NewServer("dot", agd.ProtoDoT, "198.18.0.3:853", false),
 		"doh":        world.NewServer("doh", agd.ProtoDoH, "198.18.0.4:443", false),
 		"doq":        world.NewServer("doq", agd.ProtoDoQ, "198.18.0.5:853", false),
 		"dnscrypt":   world.NewServer("dnscrypt", agd.ProtoDNSCrypt, "198.18.0.6:5443", true),
 	}
-	kinds := []string{"dns-linked", "dns-plain", "dns-iface", "dot", "doh", "doq", "dnscrypt"}
+	kinds := []string{"dns-linked", "dns-plain", "dns-iface", "dns-iface2", "dot", "doh", "doq", "dnscrypt"}
 	var srvList []*agd.Server
 	for _, k := range kinds {
 		srvList = append(srvList, servers[k])
@@ -997,7 +998,7 @@ func genRequest(t *kernel.Tape, u *universe, servers map[string]*agd.Server, kin
 			// on the URL and TLS channels.
 			r.cpeID = strings.ToLower(id)
 		}
-		if r.srvKind == "dns-iface" {
+		if r.srvKind == "dns-iface" || r.srvKind == "dns-iface2" {
 			switch t.Choose(3, "local-addr") {
 			case 0:
 				r.local = netip.AddrPortFrom(netip.MustParseAddr(kernel.Pick(t, dedicatedIPs, "dedicated")), 53)
